@@ -500,11 +500,13 @@ func (db *Backend) ListBucketVersions(
 			// FIXME: NO idea what S3 would do here.
 			return result, gofakes3.ErrInternal
 		}
-		iter.Seek(page.KeyMarker)
+		if !iter.Seek(page.KeyMarker) {
+			// No key at or after the marker: there is nothing to list (and a
+			// further Next() would start again from the first key).
+			return result, nil
+		}
 	}
 
-	var truncated = false
-	var first = true
 	var cnt int64 = 0
 
 	// FIXME: The S3 docs have this to say on the topic of result ordering:
@@ -531,14 +533,12 @@ func (db *Backend) ListBucketVersions(
 		}
 
 		versions := iter.Value().(*bucketObject).Iterator()
-		if first {
-			if page.VersionIDMarker != "" {
-				if !versions.Seek(page.VersionIDMarker) {
-					// FIXME: log
-					return result, gofakes3.ErrInternal
-				}
+		if page.VersionIDMarker != "" && object.name == page.KeyMarker {
+			// The version marker names a version of the marker key only:
+			if !versions.Seek(page.VersionIDMarker) {
+				// FIXME: log
+				return result, gofakes3.ErrInternal
 			}
-			first = false
 		}
 
 		for versions.Next() {
@@ -571,14 +571,35 @@ func (db *Backend) ListBucketVersions(
 
 			cnt++
 			if page.MaxKeys > 0 && cnt >= page.MaxKeys {
-				truncated = versions.Next()
+				if versions.Next() {
+					// The page ends inside this key: the next one starts at
+					// the first version not returned.
+					result.IsTruncated = true
+					result.NextKeyMarker = object.name
+					result.NextVersionIDMarker = versions.Value().versionID
+					return result, nil
+				}
 				goto done
 			}
 		}
 	}
 
 done:
-	result.IsTruncated = truncated || iter.Next()
+	// The page ended between two keys (or the keys ran out). It is truncated
+	// exactly when another key matching the prefix follows; that key and its
+	// first version are where the next page starts.
+	for iter.Next() {
+		next := iter.Value().(*bucketObject)
+		if !prefix.Match(next.name, &match) {
+			continue
+		}
+		if versions := next.Iterator(); versions.Next() {
+			result.IsTruncated = true
+			result.NextKeyMarker = next.name
+			result.NextVersionIDMarker = versions.Value().versionID
+			break
+		}
+	}
 
 	return result, nil
 }
